@@ -70,6 +70,7 @@ func maxLen(c dpk.PRFCfg) int {
 func build(route string, c dpk.PRFCfg) (prf.PRF, error) {
 	if route == "subtle" {
 		kb := vt.Unhex(c.Key)
+		defer dpk.Scribble(kb) // the caller overwrites its key (and salt) buffer after construction
 		switch c.Alg {
 		case "HMAC":
 			return psubtle.NewHMACPRF(c.Hash, kb)
@@ -80,6 +81,7 @@ func build(route string, c dpk.PRFCfg) (prf.PRF, error) {
 		if c.SaltNil {
 			salt = nil
 		}
+		defer dpk.Scribble(salt)
 		return psubtle.NewHKDFPRF(c.Hash, kb, salt)
 	}
 	k, err := dpk.PRFKey(c)
@@ -101,6 +103,18 @@ func build(route string, c dpk.PRFCfg) (prf.PRF, error) {
 	return p, nil
 }
 
+// bufs holds the driver-owned REUSED input buffers (one backing array per argument role): every call overwrites
+// them with its inputs and scribbles over them afterwards; logged inputs come from the pristine arguments, outputs
+// are copied after the scribble.
+var bufs = dpk.Arenas{}
+
+// adv calls f with the input placed in the reused input buffer, then scribbles over that buffer.
+func adv(in []byte, f func(in []byte) ([]byte, error)) ([]byte, error) {
+	o, err := f(bufs.In("in", in))
+	bufs.ScribbleAll()
+	return append([]byte{}, o...), err
+}
+
 type prfCase struct {
 	route string
 	c     dpk.PRFCfg
@@ -116,8 +130,8 @@ func (c *prfCase) compute(kind string, in []byte, n uint32) []byte {
 	var o1, o2 []byte
 	var e1, e2 error
 	p, pv := vt.Try(func() {
-		o1, e1 = c.p.ComputePRF(in, n)
-		o2, e2 = c.p.ComputePRF(append([]byte{}, in...), n)
+		o1, e1 = adv(in, func(b []byte) ([]byte, error) { return c.p.ComputePRF(b, n) })
+		o2, e2 = adv(in, func(b []byte) ([]byte, error) { return c.p.ComputePRF(b, n) }) // same buffer, reused
 	})
 	e := c.ev("compute")
 	e["kind"], e["input"], e["n"], e["nb"] = kind, vt.Hex(in), nInt(n), vt.ID4(n)
@@ -140,7 +154,7 @@ func (c *prfCase) sweep(in []byte) [][]byte {
 	failed := false
 	p, pv := vt.Try(func() {
 		for n := 0; n <= mx; n++ {
-			o, err := c.p.ComputePRF(in, uint32(n))
+			o, err := adv(in, func(b []byte) ([]byte, error) { return c.p.ComputePRF(b, uint32(n)) })
 			if err != nil {
 				failed = true
 				return
@@ -162,8 +176,8 @@ func (c *prfCase) prefix(in []byte, n, m uint32) {
 	var on, om []byte
 	var e1, e2 error
 	p, pv := vt.Try(func() {
-		om, e1 = c.p.ComputePRF(in, m)
-		on, e2 = c.p.ComputePRF(in, n)
+		om, e1 = adv(in, func(b []byte) ([]byte, error) { return c.p.ComputePRF(b, m) })
+		on, e2 = adv(in, func(b []byte) ([]byte, error) { return c.p.ComputePRF(b, n) })
 	})
 	if e1 != nil || e2 != nil {
 		return // covered by compute events
@@ -304,8 +318,12 @@ func runPRF(w *vt.Writer, full bool) {
 				ins = append(ins, l)
 			}
 		}
+		var early [][]byte // the first inputs of this PRF, computed again after all its other calls
 		for ii, l := range ins {
 			in := content(r, l, ii+ci)
+			if len(early) < 2 {
+				early = append(early, in)
+			}
 			if pl.c.Alg != "HKDF" {
 				outs := c.sweep(in) // every output length 0..max
 				for _, over := range []uint32{uint32(mx + 1), uint32(mx + 2), uint32(2 * mx), 255, 256, 65536, 1 << 31, 0xffffffff} {
@@ -344,6 +362,15 @@ func runPRF(w *vt.Writer, full bool) {
 					c.prefix(in, pr[0], pr[1])
 				}
 			}
+		}
+		// determinism across the life of the PRF object: the earliest inputs again, after every buffer the driver
+		// passed has been reused and scribbled over
+		for _, in := range early {
+			n := mx
+			if n > 48 {
+				n = 48
+			}
+			c.compute("repeat", in, uint32(n))
 		}
 	}
 }
@@ -474,7 +501,10 @@ func exerciseSet(w *vt.Writer, r *rand.Rand, route string, ks []ksEntry, h *keys
 		primNs = []uint32{uint32(r.Intn(17)), 16, 65}
 	}
 	for _, n := range primNs {
-		sc("primary", func(n uint32) ([]byte, error, bool) { o, err := s.ComputePrimaryPRF(in, n); return o, err, true }, n)
+		sc("primary", func(n uint32) ([]byte, error, bool) {
+			o, err := adv(in, func(b []byte) ([]byte, error) { return s.ComputePrimaryPRF(b, n) })
+			return o, err, true
+		}, n)
 	}
 	for _, ke := range ks {
 		var id uint32
@@ -489,7 +519,7 @@ func exerciseSet(w *vt.Writer, r *rand.Rand, route string, ks []ksEntry, h *keys
 				if !ok {
 					return nil, nil, false
 				}
-				o, err := p.ComputePRF(in, n)
+				o, err := adv(in, func(b []byte) ([]byte, error) { return p.ComputePRF(b, n) })
 				return o, err, true
 			}, n)
 		}
@@ -654,8 +684,12 @@ func hkdfCall(w *vt.Writer, kind, h string, key, salt, info []byte, saltNil, inf
 		i = nil
 	}
 	p, pv := vt.Try(func() {
-		o1, e1 = subtle.ComputeHKDF(h, key, s, i, n)
-		o2, e2 = subtle.ComputeHKDF(h, append([]byte{}, key...), append([]byte{}, s...), append([]byte{}, i...), n)
+		o1, e1 = subtle.ComputeHKDF(h, bufs.In("hkey", key), bufs.In("hsalt", s), bufs.In("hinfo", i), n)
+		bufs.ScribbleAll()
+		o1 = append([]byte{}, o1...)
+		o2, e2 = subtle.ComputeHKDF(h, bufs.In("hkey", key), bufs.In("hsalt", s), bufs.In("hinfo", i), n) // same buffers, reused
+		bufs.ScribbleAll()
+		o2 = append([]byte{}, o2...)
 	})
 	e := vt.Ev{"ev": "hkdf", "route": "subtle", "kind": kind, "hash": h, "key": vt.Hex(key), "salt": vt.Hex(salt), "saltnil": saltNil,
 		"info": vt.Hex(info), "n": nInt(n), "nb": vt.ID4(n), "ok": e1 == nil && e2 == nil && !p, "out": vt.Hex(o1), "out2": second(o1, o2), "panic": p}
@@ -824,8 +858,8 @@ func replay(path string, w *vt.Writer) {
 		present := true
 		pp, _ := vt.Try(func() {
 			if e.ID == "primary" {
-				o1, e1 = s.ComputePrimaryPRF(in, uint32(e.N))
-				o2, e2 = s.ComputePrimaryPRF(in, uint32(e.N))
+				o1, e1 = adv(in, func(b []byte) ([]byte, error) { return s.ComputePrimaryPRF(b, uint32(e.N)) })
+				o2, e2 = adv(in, func(b []byte) ([]byte, error) { return s.ComputePrimaryPRF(b, uint32(e.N)) })
 				return
 			}
 			var id uint32
@@ -835,8 +869,8 @@ func replay(path string, w *vt.Writer) {
 				present = false
 				return
 			}
-			o1, e1 = q.ComputePRF(in, uint32(e.N))
-			o2, e2 = q.ComputePRF(in, uint32(e.N))
+			o1, e1 = adv(in, func(b []byte) ([]byte, error) { return q.ComputePRF(b, uint32(e.N)) })
+			o2, e2 = adv(in, func(b []byte) ([]byte, error) { return q.ComputePRF(b, uint32(e.N)) })
 		})
 		w.Emit(vt.Ev{"ev": "setcompute", "route": "factory", "ks": e.Ks, "id": e.ID, "input": e.Input, "n": e.N, "nb": vt.ID4(uint32(e.N)), "present": present,
 			"ok": present && e1 == nil && e2 == nil && !pp, "out": vt.Hex(o1), "out2": vt.Hex(o2), "panic": pp})
